@@ -16,6 +16,7 @@ Correspondence: the rows every tree actually receives vs the Lean model's `subse
 doubles reproduced bit for bit), plus a sweep of the row -> tree expression taken from forest.py's source.
 """
 import ast
+import contextlib
 import hashlib
 import inspect
 import json
@@ -156,11 +157,15 @@ def _rs(rs, j=0):
     return KIND_WRAP[kind]((int(base) + 7919 * j) % int(mod))
 
 
-def _mech(make, values, n_calls=48, post=None):
+def _mech(make, values, n_calls=48, post=None, make_first=False):
     def fn(case_seed, rs):
         r = gen.SplitMix64(case_seed * 104729 + 7)
-        vals = values(r)
-        m = make(_rs(rs), r)
+        if make_first:                       # region entries: the constructor draws the parameters and leaves the value
+            m = make(_rs(rs), r)
+            vals = values(r)
+        else:
+            vals = values(r)
+            m = make(_rs(rs), r)
         out = []
         for i in range(n_calls):
             v = vals[i % len(vals)]
@@ -285,6 +290,126 @@ MECH_ENTRIES = {
     "bernoulli_neg_exp": _bneg_fn,
     "bernoulli_neg_exp:direct-seed": _bneg_direct_fn,
 }
+
+# ---- parameter REGIONS (the parameters are a function of the case seed, so every case is another point of the region).
+# Criterion for "different seeds must give different outputs": an entry returns >= 48 draws per seed and is compared over
+# 8 seeds; the regions below are built so that the law of ONE draw has no atom of mass > 0.78 (continuous laws folded /
+# conditioned into a domain holding >= 2^20 doubles; discrete laws with epsilon/sensitivity <= 1 on >= 5 points; clamping
+# mechanisms only with the domain >= 40 noise scales wide around the value, clamped mass <= e^-20), hence
+# P[8 seeds agree on 48 draws] <= 0.78^(7*48) < 2^-120.  Configurations whose law IS a point mass (sensitivity 0,
+# epsilon = inf, zero-width domain) are listed in POINT_MASS: for them only reproducibility is required.
+
+def _float_domain(r, region):
+    """(lower, upper, sensitivity, value) with the noise scale comparable to the width (interior and folding both matter)"""
+    if region == "narrow-far":            # width / |offset| between 1e-9 and 1e-5
+        off = r.choice([1.0, -1.0, 1e3, 1e6, -1e6, 1e9])
+        w = abs(off) * r.loguniform(1e-9, 1e-5)
+    elif region == "tiny-near-zero":
+        w = r.loguniform(1e-12, 1e-8)
+        off = r.choice([0.0, -w / 2, w, -3 * w])
+    elif region == "moderate":            # width / |offset| between 1e-3 and 1
+        off = r.choice([1.0, -7.0, 250.0, 1e4])
+        w = abs(off) * r.loguniform(1e-3, 1.0)
+    else:                                 # wide
+        off = r.uniform(-1e3, 1e3)
+        w = r.loguniform(10, 1e5)
+    lo, hi = off, off + w
+    return lo, hi, w * r.loguniform(0.05, 0.5), lo + w * r.u01()
+
+
+def _interior_domain(r):
+    """(lower, upper, sensitivity, value, epsilon): the value sits >= 40 noise scales inside the domain"""
+    sens, eps = r.loguniform(1e-3, 1e3), r.loguniform(0.3, 2.0)
+    half = (sens / eps) * r.loguniform(40, 1e4)
+    c = r.choice([0.0, 1e6, -1e6, r.uniform(-100, 100)]) * max(1.0, sens)
+    return c - half, c + half, sens, c + half * r.uniform(-0.2, 0.2), eps
+
+
+def _int_domain(r, region):
+    if region == "narrow-far":
+        lo = r.choice([10 ** 6, -10 ** 6, 10 ** 9, 123456789])
+        w = r.randint(5, 10)
+    elif region == "near-zero":
+        lo, w = r.randint(-4, 0), r.randint(5, 12)
+    else:
+        lo, w = r.randint(-1000, 1000), r.randint(50, 5000)
+    return lo, lo + w, lo + r.randint(0, w)
+
+
+def _region_entries():
+    e = {}
+    for region in ("narrow-far", "tiny-near-zero", "moderate", "wide"):
+        def mk(cls, region=region):
+            def make(rs, r):
+                lo, hi, sens, v = _float_domain(r, region)
+                r._v = v
+                return cls(epsilon=r.loguniform(0.3, 2.0), sensitivity=sens, lower=lo, upper=hi, random_state=rs)
+            return _mech(make, lambda r: [r._v], make_first=True)
+        e[f"LaplaceFolded:region:{region}"] = mk(M.LaplaceFolded)
+        e[f"LaplaceBoundedDomain:region:{region}"] = mk(M.LaplaceBoundedDomain)
+    for region in ("narrow-far", "near-zero", "wide"):
+        def make(rs, r, region=region):
+            lo, hi, v = _int_domain(r, region)
+            r._v = v
+            return M.GeometricFolded(epsilon=r.loguniform(0.2, 1.0), sensitivity=1, lower=lo, upper=hi, random_state=rs)
+        e[f"GeometricFolded:region:{region}"] = _mech(make, lambda r: [r._v], make_first=True)
+
+    def interior(cls, integer=False):
+        def make(rs, r):
+            lo, hi, sens, v, eps = _interior_domain(r)
+            if integer:
+                sens = 1
+                lo, hi, v = int(lo) - 50, int(hi) + 50, int(v)
+                eps = min(eps, 1.0)
+            r._v = v
+            return cls(epsilon=eps, sensitivity=sens, lower=lo, upper=hi, random_state=rs)
+        return _mech(make, lambda r: [r._v], make_first=True)
+    e["LaplaceTruncated:region:interior"] = interior(M.LaplaceTruncated)
+    e["Snapping:region:interior"] = interior(M.Snapping)
+    e["GeometricTruncated:region:interior"] = interior(M.GeometricTruncated, integer=True)
+
+    def scaled(cls, delta=None, integer=False, **extra):
+        def make(rs, r):
+            sens = r.randint(1, 3) if integer else r.loguniform(1e-6, 1e6)
+            kw = dict(extra)
+            if delta == "opt":
+                kw["delta"] = r.choice([0.0, r.loguniform(1e-6, 0.3)])
+            elif delta == "pos":
+                kw["delta"] = r.loguniform(1e-6, 0.3)
+            r._v = (r.randint(-1000, 1000) if integer else sens * r.uniform(-10, 10))
+            return cls(epsilon=r.loguniform(0.05, 1.0), sensitivity=sens, random_state=rs, **kw)
+        return _mech(make, lambda r: [r._v], make_first=True)
+    e["Laplace:region"] = scaled(M.Laplace, delta="opt")
+    e["LaplaceBoundedNoise:region"] = scaled(M.LaplaceBoundedNoise, delta="pos")
+    e["Gaussian:region"] = scaled(M.Gaussian, delta="pos")
+    e["GaussianAnalytic:region"] = scaled(M.GaussianAnalytic, delta="pos")
+    e["GaussianDiscrete:region"] = scaled(M.GaussianDiscrete, delta="pos", integer=True)
+    e["Geometric:region"] = scaled(M.Geometric, integer=True)
+    e["Staircase:region"] = scaled(M.Staircase)
+    e["Uniform:region"] = _mech(lambda rs, r: M.Uniform(delta=r.loguniform(1e-6, 0.5), sensitivity=r.loguniform(1e-6, 1e6),
+                                                       random_state=rs), lambda r: [r.uniform(-5, 5)])
+    e["Binary:region"] = _mech(lambda rs, r: M.Binary(epsilon=r.loguniform(0.01, 1.0), value0="no", value1="yes", random_state=rs),
+                               lambda r: ["no", "yes"], n_calls=96)
+    e["Exponential:region"] = _mech(
+        lambda rs, r: M.Exponential(epsilon=r.loguniform(0.01, 1.0), sensitivity=1.0, utility=_utils(r, r.randint(3, 9)),
+                                    monotonic=r.chance(0.5), random_state=rs), lambda r: [_NOARG], n_calls=96)
+    e["PermuteAndFlip:region"] = _mech(
+        lambda rs, r: M.PermuteAndFlip(epsilon=r.loguniform(0.01, 1.0), sensitivity=1.0, utility=_utils(r, r.randint(3, 9)),
+                                       monotonic=r.chance(0.5), random_state=rs), lambda r: [_NOARG], n_calls=96)
+    # legitimately noise-free configurations: only reproducibility is required of them
+    e["LaplaceFolded:point:zero-width"] = _mech(lambda rs, r: M.LaplaceFolded(epsilon=1.0, sensitivity=1.0, lower=3.5, upper=3.5,
+                                                                              random_state=rs), lambda r: [3.5])
+    e["LaplaceTruncated:point:sensitivity-0"] = _mech(
+        lambda rs, r: M.LaplaceTruncated(epsilon=1.0, sensitivity=0.0, lower=-1.0, upper=1.0, random_state=rs), lambda r: [0.25])
+    e["Laplace:point:epsilon-inf"] = _mech(lambda rs, r: M.Laplace(epsilon=float("inf"), sensitivity=1.0, random_state=rs),
+                                           lambda r: [0.25])
+    e["GeometricFolded:point:zero-width"] = _mech(lambda rs, r: M.GeometricFolded(epsilon=1.0, sensitivity=1, lower=7, upper=7,
+                                                                                  random_state=rs), lambda r: [7])
+    return e
+
+
+MECH_ENTRIES.update(_region_entries())
+POINT_MASS = {"mechanisms." + k for k in MECH_ENTRIES if ":point:" in k}
 
 T = dp.tools
 EPS_T = 1.0       # continuous tools: noise well above rounding, results rarely clipped to the bounds
@@ -544,6 +669,214 @@ def run_in_fresh_interpreter(jobs, timeout=900, hashseed=1):
     return json.loads(p.stdout.split("@@RESULT@@", 1)[1])
 
 
+# ------------------------------------------------------------------ call-history independence
+
+@contextlib.contextmanager
+def recording_constructions():
+    """every mechanism constructed in the block keeps its (outermost) constructor keywords; yields the list of
+    (class name, kwargs without random_state, first value randomised)"""
+    import threading
+    classes = seams.all_mechanism_classes()
+    saved = []
+    seen = []
+
+    def wrap(cls, orig):
+        def init(self, *a, **k):
+            if "_verif_kwargs" not in self.__dict__ and not a:
+                self.__dict__["_verif_kwargs"] = (cls.__name__, {n: v for n, v in k.items() if n != "random_state"})
+            return orig(self, *a, **k)
+        return init
+    for cls in classes:
+        if "__init__" in cls.__dict__:
+            saved.append((cls, cls.__dict__["__init__"]))
+            setattr(cls, "__init__", wrap(cls, cls.__dict__["__init__"]))
+    lock = threading.Lock()
+
+    def on_call(call, idx):
+        kw = call.obj.__dict__.get("_verif_kwargs")
+        if kw is not None and type(call.obj).__name__ == kw[0]:
+            with lock:
+                if not call.obj.__dict__.get("_verif_seen"):
+                    call.obj.__dict__["_verif_seen"] = True
+                    seen.append((kw[0], kw[1], call.value))
+        return seams.interpose.REAL
+    try:
+        with seams.interpose(force=on_call):
+            yield seen
+    finally:
+        for cls, orig in saved:
+            setattr(cls, "__init__", orig)
+
+
+@contextlib.contextmanager
+def pristine_mechanisms():
+    """a freshly executed copy of diffprivlib.mechanisms (+ utils, validation): new class objects, so class-level memos,
+    module-level caches and mutable defaults are in the state of 'nothing has been called yet in this process'
+    (the construction builder-c03-c17 uses for C03's cross-instance stratum)"""
+    import importlib
+    import diffprivlib
+    names = [k for k in sys.modules if k in ("diffprivlib.utils", "diffprivlib.validation", "diffprivlib.mechanisms")
+             or k.startswith("diffprivlib.mechanisms.")]
+    saved = {k: sys.modules.pop(k) for k in names}
+    try:
+        yield importlib.import_module("diffprivlib.mechanisms")
+    finally:
+        for k in [k for k in sys.modules if k in saved or k.startswith("diffprivlib.mechanisms.")]:
+            del sys.modules[k]
+        sys.modules.update(saved)
+        diffprivlib.mechanisms = saved["diffprivlib.mechanisms"]
+        diffprivlib.utils = saved["diffprivlib.utils"]
+        diffprivlib.validation = saved["diffprivlib.validation"]
+
+
+def one_field_variants(cls, kwargs):
+    """constructor keywords differing from `kwargs` in exactly one field (also optional numeric fields left at their
+    default); not all of them are valid parameter sets — the caller ignores the ones the library refuses"""
+    out = []
+
+    def put(k, v):
+        kw = dict(kwargs)
+        kw[k] = v
+        out.append((k, kw))
+    for k, v in kwargs.items():
+        if isinstance(v, bool):
+            put(k, not v)
+        elif isinstance(v, (int, np.integer)):
+            put(k, int(v) + 1)
+            put(k, max(int(v) - 1, 0))
+        elif isinstance(v, (float, np.floating)) and np.isfinite(v):
+            if k == "delta":
+                put(k, 0.0 if v else 0.05)
+                put(k, min(0.9, v * 2 + 0.01))
+            else:
+                put(k, float(v) * 2)
+                put(k, float(v) / 2)
+                put(k, float(v) + 1.0)
+        elif isinstance(v, (list, tuple)) and v and all(isinstance(x, (int, float, np.number)) for x in v):
+            w = list(v)
+            w[0] = float(w[0]) + 0.5
+            put(k, w)
+            put(k, list(v)[::-1])
+    try:
+        for name, prm in inspect.signature(cls.__init__).parameters.items():
+            if name in kwargs or name in ("self", "random_state") or prm.default is inspect._empty:
+                continue
+            if name == "delta":
+                put(name, 0.05)
+            elif isinstance(prm.default, bool):
+                put(name, not prm.default)
+            elif isinstance(prm.default, (int, float)):
+                put(name, prm.default * 2 + 1)
+    except (TypeError, ValueError):
+        pass
+    return out
+
+
+def _flat_out(o, kwargs):
+    if callable(o):                                        # Vector returns the perturbed objective
+        val, grad = o(np.ones(int(kwargs.get("dimension", 1))))
+        return [float(val)] + [float(g) for g in np.ravel(grad)]
+    return o
+
+
+def run_construction(P, cname, kwargs, value, seed, n=6):
+    m = getattr(P, cname)(random_state=seed, **kwargs)
+    return [_flat_out(m.randomise(value) if value is not None else m.randomise(), kwargs) for _ in range(n)]
+
+
+def history_outcomes(cname, kwargs, value, seed, prefix):
+    """(result alone in a pristine package, result after the prefix in another pristine package)"""
+    with warnings.catch_warnings():
+        warnings.simplefilter("ignore")
+        with pristine_mechanisms() as P:
+            alone = run_construction(P, cname, kwargs, value, seed)
+        with pristine_mechanisms() as P:
+            for kw, sd in prefix:
+                try:
+                    run_construction(P, cname, kw, value, sd, n=2)
+                except Exception:  # noqa  (an invalid one-field variant)
+                    pass
+            after = run_construction(P, cname, kwargs, value, seed)
+    return alone, after
+
+
+def _kw_repr(kwargs):
+    return ", ".join(f"{k}={v!r}"[:60] for k, v in kwargs.items())
+
+
+def describe_mechanisms(name, case_seed, rs):
+    """the mechanisms an entry constructs, for messages"""
+    try:
+        with recording_constructions() as seen:
+            run_entry(name, case_seed, rs)
+        return "; constructs " + " / ".join(f"{c}({_kw_repr(k)}).randomise({v!r})"[:220] for c, k, v in seen[:2])
+    except Exception:  # noqa
+        return ""
+
+
+def _preview(outs):
+    return repr(np.asarray(outs[0]).ravel()[:3].tolist())[:80] if outs else ""
+
+
+def check_history(ctx, per_entry):
+    """for the mechanisms every entry point (tools and models included) actually constructs: the seeded result alone in a
+    pristine package must equal the result after a prefix of seeded calls of the same class whose parameters differ in
+    one field, and after the same call with another seed"""
+    r = ctx.fork("history")
+    done = set()
+    n = 0
+    for name in ENTRIES:
+        case_seed, rs = r.randint(0, 10 ** 6), r.randint(0, 2 ** 31 - 2)
+        try:
+            with recording_constructions() as seen:
+                run_entry(name, case_seed, rs)
+        except Exception as e:  # noqa
+            ctx.note(f"history: could not record {name}: {type(e).__name__}")
+            continue
+        taken = 0
+        for cname, kwargs, value in seen:
+            key = (cname, repr(sorted(kwargs.items(), key=lambda kv: kv[0]))[:400])
+            if key in done or taken >= per_entry:
+                continue
+            done.add(key)
+            taken += 1
+            seed = r.randint(0, 2 ** 31 - 2)
+            variants = one_field_variants(getattr(M, cname), kwargs)
+            r.shuffle(variants)
+            delta_first = sorted(variants, key=lambda v: v[0] != "delta")[:2]
+            chosen = delta_first + [v for v in variants if v not in delta_first][:5]
+            prefix = [(kw, r.randint(0, 2 ** 31 - 2)) for _, kw in chosen] + [(kwargs, seed + 1)]
+            try:
+                alone, after = history_outcomes(cname, kwargs, value, seed, prefix)
+            except Exception as e:  # noqa
+                ctx.note(f"history: {cname}({_kw_repr(kwargs)[:120]}) raised {type(e).__name__}")
+                continue
+            n += 1
+            d = first_diff([_c(alone)], [_c(after)])
+            ctx.case(("history", cname, key[1][:120]))
+            if d:
+                fields = [f for f, _ in chosen]
+                ctx.violation(f"C15:mechanisms.{cname}:call-history",
+                              f"{cname}({_kw_repr(kwargs)}, random_state={seed}).randomise({value!r}) (constructed by {name}) gives "
+                              f"{alone[:2]} alone in a pristine package, but {after[:2]} after seeded calls of the same class "
+                              f"differing in one of {fields} (and the same call with another seed)",
+                              {"kind": "history", "cls": cname, "kwargs": kwargs, "value": value, "seed": seed,
+                               "prefix": [[kw, sd] for kw, sd in prefix], "entry": name})
+            else:
+                ctx.trace_ok()
+    ctx.count("call_history_comparisons", n)
+
+
+def _c(outs):
+    """canonical array / string for a list of mechanism outputs"""
+    flat = []
+    for o in outs:
+        if isinstance(o, (str, bytes)) or o is None or isinstance(o, tuple):
+            return repr(outs)
+        flat += list(np.ravel(np.asarray(o, dtype=float)))
+    return np.array(flat)
+
+
 # ------------------------------------------------------------------ seed kinds
 
 def seed_specs(r):
@@ -619,6 +952,7 @@ def check_entries(ctx, n_cases, n_fresh):
             rs1 = r.randint(0, 2 ** 31 - 2)
             rs2 = rs1 + 1 + r.randint(0, 1000)
             a = run_entry(name, case_seed, rs1)
+            c2 = run_entry(name, case_seed, rs2)          # the repetition comes AFTER the same call with another seed
             b = run_entry(name, case_seed, rs1)
             d = first_diff(a, b)
             if d:
@@ -627,17 +961,20 @@ def check_entries(ctx, n_cases, n_fresh):
                               f"{d[0]} element {d[1]} is {d[2]!r} the first time and {d[3]!r} the second",
                               {"kind": "entry", "check": "repeat", "entry": name, "case_seed": case_seed, "seed": rs1,
                                "first_difference": d})
-            c2 = run_entry(name, case_seed, rs2)
             same = first_diff(a, c2) is None
-            if same:
-                # astronomically unlikely by construction (>= 48 draws / continuous outputs); confirm with two more seeds
-                more = [run_entry(name, case_seed, rs2 + 17 + k) for k in range(2)]
+            if name in POINT_MASS:
+                same = True                               # the law is a point mass: nothing to require of the seeds
+            elif same:
+                # astronomically unlikely by construction (see the criterion above the region entries): 8 seeds in all
+                more = [run_entry(name, case_seed, rs2 + 17 + k) for k in range(6)]
                 if all(first_diff(a, m) is None for m in more):
+                    desc = describe_mechanisms(name, case_seed, rs1)
                     ctx.violation(f"C15:{name}:seed-insensitive",
-                                  f"{name} (input case {case_seed}) returns bit-identical outputs for random_state={rs1}, "
-                                  f"{rs2}, {rs2 + 17}, {rs2 + 18}: the seed does not reach the noise",
+                                  f"{name} (input case {case_seed}{desc}) returns bit-identical outputs "
+                                  f"({_preview(a)}) for the 8 seeds random_state={rs1}, {rs2}, {rs2 + 17}..{rs2 + 22}: the seed "
+                                  f"does not reach the noise",
                                   {"kind": "entry", "check": "seeds", "entry": name, "case_seed": case_seed, "seed": rs1,
-                                   "seed2": rs2})
+                                   "seed2": rs2, "mechanisms": desc})
             else:
                 noisy += 1
             ctx.case((name, case_seed, rs1) if not same else None)
@@ -650,7 +987,13 @@ def check_entries(ctx, n_cases, n_fresh):
     # (b) two fresh interpreters with explicit, different PYTHONHASHSEEDs (the parent runs under ./check's 0) run every
     # entry once more: any dependence on str/bytes hashes or set order shows deterministically
     for hs in FRESH_HASHSEEDS:
-        res = run_in_fresh_interpreter([j[:3] for j in jobs], hashseed=hs)
+        # the second child also runs the jobs in REVERSED order: a result that depends on what was called before it in
+        # the process differs between the two orders
+        order = list(range(len(jobs))) if hs == FRESH_HASHSEEDS[0] else list(range(len(jobs)))[::-1]
+        got = run_in_fresh_interpreter([jobs[i][:3] for i in order], hashseed=hs)
+        res = [None] * len(jobs)
+        for i, g in zip(order, got):
+            res[i] = g
         for (name, case_seed, rs1, dg), child in zip(jobs, res):
             ctx.case(None)
             if child != dg:
@@ -1147,6 +1490,8 @@ def check(ctx):
     # (a)(b)(c)
     check_entries(ctx, n_cases=ctx.budget(3, 100), n_fresh=ctx.budget(1, 10))
     phase("entries (a)(b)(c)")
+    check_history(ctx, per_entry=2)
+    phase("call history")
     check_reuse(ctx, ctx.budget(2, 30))
     phase("estimator re-use")
     # (d) forest
@@ -1227,7 +1572,7 @@ def replay(ctx, data):
             return any(run_in_fresh_interpreter([(name, cs, rs)], hashseed=hs)[0] != digests(a) for hs in FRESH_HASHSEEDS)
         if d["check"] == "equal-int":
             return first_diff(a, run_entry(name, cs, ["int", rs[1], rs[2]])) is not None
-        return all(first_diff(a, run_entry(name, cs, s)) is None for s in (d["seed2"], d["seed2"] + 17, d["seed2"] + 18))
+        return all(first_diff(a, run_entry(name, cs, s)) is None for s in [d["seed2"]] + [d["seed2"] + 17 + k for k in range(6)])
     if kind in ("forest-njobs", "forest-order"):
         check_forest_njobs(c, d["case"])
     elif kind == "forest-discipline":
@@ -1236,6 +1581,20 @@ def replay(ctx, data):
         check_logreg(c, [d["case"]])
     elif kind == "logreg-repeat":
         check_logreg_repeat(c, d["case"], reps=6)
+    elif kind == "history":
+        from ..core import unjson_float as u
+
+        def fix(x):
+            if isinstance(x, list):
+                return [fix(y) for y in x]
+            if isinstance(x, dict):
+                return {k: fix(v) for k, v in x.items()}
+            return u(x)
+        kwargs, value = fix(d["kwargs"]), fix(d["value"])
+        if d["cls"] == "Bingham":
+            value = np.array(value)
+        alone, after = history_outcomes(d["cls"], kwargs, value, d["seed"], [(fix(kw), sd) for kw, sd in d["prefix"]])
+        return first_diff([_c(alone)], [_c(after)]) is not None
     elif kind == "reuse":
         res = reuse_sequences(MODEL_SPECS[d["entry"]], d["case_seed"], d["seed"])
         cmp_to = res["partial_fit x3 (object A)"] if d["sequence"].startswith("partial_fit x3") else res["fresh"]
